@@ -13,7 +13,8 @@
    prefixes and the empty set included; reverse cursors enumerate [rev l]. *)
 From Coq Require Import List NArith Bool Arith Sorting.Sorted.
 From Storage Require Import Base.Bytes Cursor.StrOrder Cursor.Core Cursor.BoltCursor Cursor.Typed
-  Cursor.Filtered Cursor.Union Cursor.Tree Cursor.SetSym Cursor.Cases Cursor.SetSymProofs Cursor.C14Lemmas.
+  Cursor.Filtered Cursor.Union Cursor.Tree Cursor.SetSym Cursor.Cases Cursor.SetSymProofs Cursor.C14Lemmas
+  Cursor.Reuse Cursor.ReuseProofs.
 Import ListNotations.
 Open Scope nat_scope.
 
@@ -187,3 +188,38 @@ Theorem seek_target_meaning : forall l v, sorted_asc l ->
   (seek_target false l v = None -> forall y, In y l -> str_leb y v = false).
 Proof. exact seek_target_meaning_lemma. Qed.
 Print Assumptions seek_target_meaning.
+
+(* ---- re-opened cursors ------------------------------------------------------------------------------------
+   The query engine caches ONE runtime set symbol per scan (rowCursorImpl.symbolCache) and calls OpenCursor
+   on it for every row; the symbol is the cursor.  (Cursor/Reuse.v) *)
+
+(* entitySetSymbolRuntime.OpenCursor is a state reset: in whatever state the previous use left the symbol
+   (cursor in the middle of another row's bucket, exhausted, moved by a Seek, nil cursor with or without a
+   value) it yields the state a fresh symbol gets - in particular value = nil when the row has no bucket *)
+Theorem reopen_is_fresh : forall keys present prev,
+  ss_reopen keys present prev = ss_open keys present.
+Proof. exact reopen_is_fresh_lemma. Qed.
+Print Assumptions reopen_is_fresh.
+
+(* one symbol used for the rows [segs] one after the other, with ANY interleaving of Next/Seek on each row:
+   every use produces the observations of a fresh cursor over that row's bucket ... *)
+Theorem setsym_reused_is_fresh_on_every_row : forall tag before b ops after,
+  nth_error (setsym_reuse_run tag (before ++ (b, ops) :: after)) (length before) = Some (setsym_run tag b ops).
+Proof. exact setsym_reuse_nth. Qed.
+Print Assumptions setsym_reused_is_fresh_on_every_row.
+
+(* ... i.e. those of the position machine over that row's set (empty when the row has no bucket: invalid
+   immediately and for ever, whatever the previous row held) *)
+Theorem setsym_reused_refines_enumerates_seeks : forall tag segs,
+  setsym_reuse_run tag segs = map (fun sg => spec_ops true (bucket_elems (fst sg)) (snd sg)) segs.
+Proof. exact setsym_reuse_run_spec. Qed.
+Print Assumptions setsym_reused_refines_enumerates_seeks.
+
+(* the scan: any not/and/or combination of isEmpty / anyOf = (seek) / anyOf != (loop) / allOf = (loop) /
+   count (loop), each predicate evaluation re-opening the one cached symbol (several times per row), selects
+   exactly the rows whose SET satisfies the filter - in any row order, rows without a bucket included;
+   in particular no evaluation runs out of fuel (every loop ends) *)
+Theorem scan_over_reused_symbol_selects_by_set : forall tag fuel f rows, filter_wf f -> rows_ok fuel rows ->
+  scan_run tag fuel f rows = Ok (scan_spec f rows).
+Proof. exact scan_run_spec. Qed.
+Print Assumptions scan_over_reused_symbol_selects_by_set.
